@@ -222,6 +222,7 @@ import socketserver
 import socket
 import http.client
 from http.server import HTTPStatus, HTTPServer, BaseHTTPRequestHandler
+from urllib.parse import quote
 
 from time import sleep
 
@@ -262,6 +263,14 @@ TOKEN_CHARSET_FINDALL_PATTERN = re.compile(
     r'([^;, ]+)'
     r'(?:; *charset="?([^";, ]*)"?)?'
     r'(?:, *)?')
+
+# Characters that are sent unchanged in the value of the CIMErrorDetails HTTP
+# header: The printable US-ASCII characters except '%'. Any other character
+# (e.g. CR, LF, other control characters, non-ASCII characters) is sent as the
+# %-escaped octets of its UTF-8 representation, as described in DSP0200 for
+# CIM-XML extension headers.
+HEADER_VALUE_SAFE_CHARS = ''.join(
+    chr(c) for c in range(0x20, 0x7F) if chr(c) != '%')
 
 # Default maximum size of the indication queue.
 DEFAULT_MAX_IND_QUEUE_SIZE = 5000
@@ -709,7 +718,12 @@ class ListenerRequestHandler(BaseHTTPRequestHandler):
         if cim_error is not None:
             self.send_header("CIMError", cim_error)
         if cim_error_details is not None:
-            self.send_header("CIMErrorDetails", cim_error_details)
+            # The details may contain text from the request or multi-line
+            # parser messages; they must not break the HTTP header syntax.
+            self.send_header(
+                "CIMErrorDetails",
+                quote(cim_error_details, safe=HEADER_VALUE_SAFE_CHARS,
+                      errors='replace'))
         if headers is not None:
             for header, value in headers:
                 self.send_header(header, value)
